@@ -313,7 +313,7 @@ struct LsInfo {                 // what the harness knows about the (truncated) 
 // minimum-norm least-squares oracles, per column:
 //   (a) A^H (A x - b) ~ 0                     normal equations (backward-stable form, no cond. factor)
 //   (b) Vnull^H x ~ 0                         x has no component in the null space (minimum norm)
-template <class T> static void lsOracle(Case& cs, const std::string& op, const LM& A, const LM& B, const LM& X, const LsInfo& li) {
+template <class T> static void lsOracle(Case& cs, const std::string& op, const LM& A, const LM& B, const LM& X, const LsInfo& li, const std::string& detail = "") {
     if (X.m != A.n || X.n != B.n) { cs.c.viol(cs.key("shape", op), cs.desc().set("got_rows", X.m).set("got_cols", X.n)); return; }
     const LD eps = epsOf<T>(), d = dimf(A.m, A.n);
     if (li.r == 0) {            // zero matrix: the minimum-norm solution is exactly 0 (NaN/garbage: same key)
@@ -323,14 +323,17 @@ template <class T> static void lsOracle(Case& cs, const std::string& op, const L
     if (!finiteOrViol(cs, op, X)) return;
     LM Rm = sub(mul(A, X), B), G = mulH(A, Rm), Nx = li.Vnull.n ? mulH(li.Vnull, X) : LM(0, X.n);
     for (int j = 0; j < B.n; ++j) {
-        LD nx = fro(col(X, j)), nb = fro(col(B, j));
-        LD tolA = (C_ORT * d * eps * li.s1 + li.trunc * li.snext) * (li.s1 * nx + nb);
-        chk(cs, cs.key("lsq", op), (double)fro(col(G, j)), (double)tolA,
-                   [&] { return cs.desc().set("column", j).set("rank", li.r).set("s1", (double)li.s1).set("sr", (double)li.sr).set("snext", (double)li.snext); });
-        if (li.Vnull.n) {
-            LD tolB = (C_ORT * d * eps * li.s1 / li.sr + li.trunc * li.snext / li.sr) * nx;
-            chk(cs, cs.key("minnorm", op), (double)fro(col(Nx, j)), (double)tolB,
-                       [&] { return cs.desc().set("column", j).set("rank", li.r).set("normX", (double)nx).set("sr", (double)li.sr); });
+        // both comparisons are made in relative form (divided by the natural scale) so that extreme
+        // magnitudes of b cannot underflow the tolerance
+        LD nx = fro(col(X, j)), nb = fro(col(B, j)), sc = li.s1 * (li.s1 * nx + nb);
+        if (sc == 0) continue;  // b = 0 and x = 0
+        LD tolA = C_ORT * d * eps + li.trunc * li.snext / li.s1;
+        chk(cs, cs.key(detail.empty() ? "lsq" : "lsq-extreme", op, detail), (double)(fro(col(G, j)) / sc), (double)tolA,
+            [&] { return cs.desc().set("column", j).set("rank", li.r).set("s1", (double)li.s1).set("sr", (double)li.sr).set("snext", (double)li.snext).set("normX", (double)nx).set("normB", (double)nb); });
+        if (li.Vnull.n && nx > 0) {
+            LD tolB = C_ORT * d * eps * li.s1 / li.sr + li.trunc * li.snext / li.sr;
+            chk(cs, cs.key(detail.empty() ? "minnorm" : "minnorm-extreme", op, detail), (double)(fro(col(Nx, j)) / nx), (double)tolB,
+                [&] { return cs.desc().set("column", j).set("rank", li.r).set("normX", (double)nx).set("sr", (double)li.sr); });
         }
     }
 }
@@ -552,6 +555,19 @@ template <class T> static RectCase makeRect(Case& cs, int m, int n, bool allowSt
     return rc;
 }
 
+// A right-hand side whose norm is outside [safmin/eps, eps/safmin] of the element type (the range in
+// which the least-squares drivers rescale b); well-conditioned unit-scale matrices only, so that x is
+// representable. The answer must scale linearly like any other.
+template <class T, class F> static void extremeRhs(Case& cs, F& f, const RectCase& rc) {
+    typedef typename ET<T>::R R;
+    if (!(cs.rankCls == "full" && rc.li.s1 == 1 && cs.r.coin(0.25))) return;
+    const bool isF = std::is_same<R, float>::value, tiny = cs.r.coin(0.5);
+    LD bs = tiny ? (isF ? 1e-33L : 1e-295L) : (isF ? 1e33L : 1e295L);
+    cs.c.cover(cs.fact + ":" + cs.et + ":" + cs.shape + ":full:" + (tiny ? "vec-tiny-norm" : "vec-huge-norm"));
+    LM b = randomRhs<T>(cs.m, 1, bs, cs.r), X;
+    if (solveVec<T>(cs, f, b, X, "solve-vec")) lsOracle<T>(cs, "solve-vec", rc.A, b, X, rc.li, "rhs-norm-outside-safe-range");
+}
+
 // ------------------------------------------------------------------ QTZ
 template <class T> static void caseQTZ(Case& cs) {
     typedef typename ET<T>::R R;
@@ -592,6 +608,7 @@ template <class T> static void caseQTZ(Case& cs) {
         LM X;
         { LM b = randomRhs<T>(m, 1, bs, r); if (solveVec<T>(cs, *f, b, X)) lsOracle<T>(cs, "solve-vec", rc.A, b, X, rc.li); }
         if (matRhs) { LM B = randomRhs<T>(m, r.integer(1, 5), bs, r); if (solveMat<T>(cs, *f, B, X)) lsOracle<T>(cs, "solve-mat", rc.A, B, X, rc.li); }
+        extremeRhs<T>(cs, *f, rc);
         if (m == n && r.coin(0.5)) {                   // square: inverse = pseudo-inverse of the rank-r part
             Matrix_<T> inv;
             if (guard(cs, "inverse", [&] { f->inverse(inv); })) lsOracle<T>(cs, "inverse", rc.A, eye(m), fromSimTK<T>(inv), rc.li);
@@ -676,6 +693,7 @@ template <class T> static void caseSVD(Case& cs) {
         }
         { LM b = randomRhs<T>(m, 1, bs, r); if (solveVec<T>(cs, *f, b, X)) lsOracle<T>(cs, "solve-vec", rc.A, b, X, rc.li); }
         if (matRhs) { LM B = randomRhs<T>(m, r.integer(1, 5), bs, r); if (solveMat<T>(cs, *f, B, X)) lsOracle<T>(cs, "solve-mat", rc.A, B, X, rc.li); }
+        extremeRhs<T>(cs, *f, rc);
         if (r.coin(0.5)) {      // documented as the pseudo inverse: n x m, defined for every shape
             Matrix_<T> inv;
             if (guard(cs, "inverse", [&] { f->inverse(inv); }, cs.shape == "tall" ? "tall" : "")) lsOracle<T>(cs, "inverse", rc.A, eye(m), fromSimTK<T>(inv), rc.li);
